@@ -28,7 +28,6 @@ Definition yoe_ok (yoe : Z) : bool := forallb (mp_ok yoe) (zrange 0 12).
 Lemma era_check_true : forallb yoe_ok (zrange 0 400) = true.
 Proof. vm_compute. reflexivity. Qed.
 
-Set Default Timeout 30.
 Lemma era_ok yoe mp d : 0 <= yoe < 400 -> 0 <= mp < 12 -> 1 <= d <= dim_mp yoe mp ->
   civil_of_doe (doe_of yoe mp d) = (yoe, mp, d) /\ 0 <= doe_of yoe mp d < 146097.
 Proof.
